@@ -1173,7 +1173,25 @@ func (s *sxState) exec(in ssa.Instruction) {
 		}
 		s.regs[u] = sxIndexAddr{base: base, idx: s.eval(u.Index)}
 	case *ssa.Index:
-		s.regs[u] = sxOp{"index", []sxVal{s.eval(u.X), s.eval(u.Index)}}
+		x, i := s.eval(u.X), s.eval(u.Index)
+		if k, ok := i.(sxConst); ok && k.c.Value != nil && k.c.Value.Kind() == constant.Int {
+			n, _ := constant.Int64Val(k.c.Value)
+			switch a := x.(type) {
+			case sxStruct: // array value built on the path
+				var et types.Type
+				if arr, ok := u.X.Type().Underlying().(*types.Array); ok {
+					et = arr.Elem()
+				}
+				s.regs[u] = sxFieldOf(a, int(n), fmt.Sprintf("[%d]", n), et)
+				return
+			case sxList:
+				if n >= 0 && int(n) < len(a.elems) {
+					s.regs[u] = a.elems[n]
+					return
+				}
+			}
+		}
+		s.regs[u] = sxOp{"index", []sxVal{x, i}}
 	case *ssa.ChangeType:
 		s.regs[u] = s.eval(u.X)
 	case *ssa.ChangeInterface:
